@@ -22,6 +22,7 @@ import xml.etree.ElementTree as ET
 
 HERE = os.path.dirname(os.path.dirname(os.path.abspath(__file__)))
 RESULTS = '/root/seed-results'
+ROUND = os.environ.get('ROUND', '')  # '' for the first round (wt-/seed-), '2' for the second (wt2-/seed2-)
 BASELINE = json.load(open('/root/.vp/BASELINE.json'))['stable_pass']
 
 
@@ -40,8 +41,8 @@ def save(key, entry):
 
 
 def confirm(prop, which):
-    wt = '/tmp/wt-' + prop
-    out = '/tmp/seed-' + prop
+    wt = '/tmp/wt{}-'.format(ROUND) + prop
+    out = '/tmp/seed{}-'.format(ROUND) + prop
     patch = '{}/patch_{}.diff'.format(out, which)
     demo = '{}/demo_{}.py'.format(out, which)
     res = {'patch': patch}
@@ -74,7 +75,7 @@ def confirm(prop, which):
 
 
 def detect(prop, which, checks):
-    patch = '/tmp/seed-{}/patch_{}.diff'.format(prop, which)
+    patch = '/tmp/seed{}-{}/patch_{}.diff'.format(ROUND, prop, which)
     assert sh('git -C /repo diff --quiet').returncode == 0, '/repo has local changes'
     a = sh('git -C /repo apply {}'.format(patch))
     if a.returncode != 0:
@@ -97,10 +98,11 @@ def keep(prop, which, entry):
     sid = '{}-{}'.format(prop, which)
     dst = os.path.join(HERE, 'seeded', sid)
     os.makedirs(dst, exist_ok=True)
-    src = '/tmp/seed-' + prop
+    src = '/tmp/seed{}-'.format(ROUND) + prop
     shutil.copy('{}/patch_{}.diff'.format(src, which), dst + '/patch.diff')
     demo = open('{}/demo_{}.py'.format(src, which)).read()
-    demo = demo.replace("'/tmp/wt-{}'".format(prop), "os.environ.get('SPOWTD_REPO', '/repo')").replace('"/tmp/wt-{}"'.format(prop), "os.environ.get('SPOWTD_REPO', '/repo')")
+    wtname = '/tmp/wt{}-{}'.format(ROUND, prop)
+    demo = demo.replace("'{}'".format(wtname), "os.environ.get('SPOWTD_REPO', '/repo')").replace('"{}"'.format(wtname), "os.environ.get('SPOWTD_REPO', '/repo')")
     if 'import os' not in demo:
         demo = 'import os\n' + demo
     open(dst + '/demo.py', 'w').write(demo)
@@ -113,7 +115,7 @@ def keep(prop, which, entry):
         'needs_to_manifest': entry.get('needs', ''),
         'what': entry.get('what', ''),
         'confirmed_by_me': {
-            'where': 'scratch worktree /tmp/wt-{} (removed afterwards)'.format(prop),
+            'where': 'scratch worktree /tmp/wt{}-{} (removed afterwards)'.format(ROUND, prop),
             'demo_without_patch_exit': entry['confirm'].get('demo_without_patch'),
             'demo_with_patch_exit': entry['confirm'].get('demo_with_patch'),
             'repository_test_suite_with_patch': entry['confirm'].get('pytest_tail'),
